@@ -88,7 +88,7 @@ const c14Marker = "⟨M⟩"
 func c14(r *mon.Run) {
 	r.Rule = "round-trip identities over strings: every string of length <= 2 over a 48-symbol trouble alphabet (backslash, the three delimiters, u n 0, whitespace, NUL and controls, DEL, U+0080, U+2028, U+FFFD, U+FFFF, astral and plane-boundary code points, structural characters), every length-3 string over the 12 most dangerous, seeded random strings of length <= 40 over all planes: " +
 		"(a) the quoted identifier spelled by three independent JSON string encoders (minimal / all-\\uXXXX with surrogate pairs / random mix incl. \\/ \\b \\f) must select exactly key s among decoy keys; (b) the raw string (with ' as \\') must denote s; (c) literals: JSON values built from those strings as keys and leaves, in compact / spaced / escaped text with ` as \\`, must denote v; " +
-		"(d) every ASCII string of length <= 2 and every length-3 string over [A-Za-z0-9_] plus 12 other bytes parses as the field of that name iff it matches [A-Za-z_][A-Za-z0-9_]*; (e) whitespace around tokens; (f) two or three names/constants in one expression (lists, hashes, pipes, comparisons): every lexeme must still denote its own value. Non-trivial = distinct (layer, string) with a backslash, delimiter, control or non-ASCII code point."
+		"(d) every ASCII string of length <= 2 and every length-3 string over [A-Za-z0-9_] plus 12 other bytes parses as the field of that name iff it matches [A-Za-z_][A-Za-z0-9_]*; (e) whitespace around tokens; (f) two or three names/constants in one expression (lists, hashes, pipes, comparisons): every lexeme must still denote its own value; (g) each kind of failing lexeme followed by the round trips again (nothing may survive a failed expression). Non-trivial = distinct (layer, string) with a backslash, delimiter, control or non-ASCII code point."
 	r.Floor = 2000
 	r.Exhaustive = true
 	r.Assumptions = []string{"the three JSON string encoders in gen/encode.go follow RFC 8259 (they share no code with encoding/json)", "raw strings are restricted as C14 says: no backslash directly before a quote or at the end"}
@@ -284,7 +284,7 @@ func c14(r *mon.Run) {
 		}}
 	// whitespace: every one- and two-character whitespace string between and around the tokens of a fixed expression
 	wsChars := []string{" ", "\t", "\n", "\r", "\v", "\f", "\u00a0", "\u2028", "\x00", "\u0085"}
-	base := []string{"a", ".", "b", "[", "0", "]", "||", "'x'", "|", "[", "a", ",", "`1`", "]"}
+	base := []string{"a", ".", "b", "[", "0", "]", "||", "'x'", "|", "[", "a", ",", "`1`", "]", "|", "abs", "(", "@", ")", ".", "f", "(", "&", "a", ",", "\"q\"", ")"}
 	baseSx, _ := parseSexpr(strings.Join(base, " "))
 	nws := len(wsChars) * (len(base) + 1)
 	wsw := mon.Workload{Name: "whitespace-set", N: nws,
@@ -368,6 +368,48 @@ func c14(r *mon.Run) {
 				t.Nontrivial("pair:" + s1 + "\x00" + s2)
 			}
 		}}
+	// a failed lexing / parsing attempt must leave nothing behind for the next expression (pooled or
+	// reused lexers): every failing lexeme kind, then the round trips again
+	failing := []string{"'it\\'s", "'a\\'b\\'c", "'unterminated", "\"unterminated", "\"a\\\"b", "`unterminated", "`{\\`", "\"\\x\"", "`nul`", "a.'r\\'", "[?a == 'x\\'y", "'\\'", "#", "a ==", ")", "f(", "'a' 'b\\'"}
+	after := mon.Workload{Name: "failure-then-success", N: len(failing) * 40,
+		Do: func(i int, t *mon.Tally) {
+			f := failing[i%len(failing)]
+			s1, s2 := strAt((i*131+7)%ns), strAt((i*977+3)%ns)
+			t.Eval()
+			if o := apiSearch(f, nil); o.Panicked {
+				r.Violate(&mon.Violation{Workload: "failure-then-success", Index: i, API: "Search", Expr: f, Expected: "an error", Observed: o.String(), Class: "panic"})
+				return
+			}
+			type cs struct {
+				expr string
+				doc  interface{}
+				want interface{}
+			}
+			cases := []cs{{"'abc'", nil, "abc"}, {"'it\\'s'", nil, "it's"}}
+			if gen.RawSpellable(s1) {
+				cases = append(cases, cs{gen.RawLexeme(s1), nil, s1})
+			}
+			cases = append(cases, cs{gen.EncodeString(s2, gen.EncMinimal, nil), map[string]interface{}{s2: c14Marker}, c14Marker},
+				cs{gen.LiteralLexeme(gen.EncodeString(s1, gen.EncMinimal, nil)), nil, s1})
+			for k, c := range cases {
+				if k == 2 {
+					apiSearch(f, nil) // fail again in between
+				}
+				t.Eval()
+				var o mon.Observed
+				if k%2 == 0 {
+					o = apiSearch(c.expr, c.doc)
+				} else {
+					o = apiCompiledSearch(c.expr, c.doc)
+				}
+				if o.Panicked || o.Err != nil || !ref.Match(c.want, o.V) {
+					r.Violate(&mon.Violation{Workload: "failure-then-success", Index: i, API: "Search", Expr: c.expr, Doc: c.doc, Expected: ref.Canon(c.want) + "  (evaluated right after the failing expression " + strconv.QuoteToASCII(f) + ")",
+						Observed: o.String(), Class: "state left behind by a failed expression"})
+					return
+				}
+			}
+			t.Nontrivial("after:" + f + s1)
+		}}
 	_ = jmespath.Search
-	r.Exec(quoted, raw, lit, ident, wsw, pairs)
+	r.Exec(quoted, raw, lit, ident, wsw, pairs, after)
 }
